@@ -932,6 +932,8 @@ static int ex_exec(char *ln);
 static int ec_glob(char *loc, char *cmd, char *arg, char *txt)
 {
 	struct rstr *re;
+	struct lbuf *lb = xb;
+	int id = bufs[0].id;
 	int offs[32];
 	int beg, end, not;
 	char *pat;
@@ -958,14 +960,14 @@ static int ec_glob(char *loc, char *cmd, char *arg, char *txt)
 		char *ln = lbuf_get(xb, i);
 		if ((rstr_find(re, ln, LEN(offs) / 2, offs, 0) < 0) == not) {
 			xrow = i;
-			if (ex_exec(s))
+			if (ex_exec(s) || xb != lb || bufs[0].id != id)	/* failed or left the buffer */
 				break;
 			i = MIN(i, xrow);
 		}
 		while (i < lbuf_len(xb) && !lbuf_globget(xb, i, xgdep))
 			i++;
 	}
-	for (i = 0; i < lbuf_len(xb); i++)
+	for (i = 0; xb == lb && bufs[0].id == id && i < lbuf_len(xb); i++)
 		lbuf_globget(xb, i, xgdep);
 	xgdep--;
 	rstr_free(re);
